@@ -39,9 +39,13 @@ RULE = (
     "descriptors; non-trivial = not rejected by the validity filter (urwid emitted no WidgetWarning).  Every evaluation builds a fresh "
     "tree from the recipe and clears CanvasCache, so a verdict never depends on earlier renders.  Monitor M1 additionally judges the "
     "canvas of every inner widget at the size it was handed (m1_judged).  The op-count bounds are reached before the time budget on an "
-    "unloaded machine, so a run explores the same cases every time; under load it explores a prefix of them."
+    "unloaded machine, so a run explores the same cases every time; under load it explores a prefix of them.  After the random phase, "
+    "directed enumerations: control-character texts, and (phase 4) 9 FIXED cursor widgets (SelectableIcon at 6 cursor positions, Button, "
+    "CheckBox, RadioButton) clipped by Padding(width='clip', 5 alignments, with/without left/right) at 11 widths from 1 to 40 and by "
+    "Overlay(width='pack', 5 alignments) at 12 box sizes, rendered with focus, judged by the ordinary clauses plus the cursor-cell clause."
 )
 ASSUMES = [
+    "directed phase 4 only (a FIXED widget with a cursor clipped by Padding(width='clip') / Overlay(width='pack')): the character under the widget's own cursor is unique in its text, so when that character is visible in the clipping parent's canvas the canvas cursor, if present, must be on that cell; 'cursor outside although its cell is visible' is the C01 cursor clause for the visible part (kept apart from the known 'cursor left outside after its cell was clipped away' lines), 'cursor on another cell' goes one step beyond the statement and is reported under its own signature",
     "sizing() is taken at its word: only sizing modes the root reports are driven, and an inner widget is judged only when the mode of the size it was handed is one it reports",
     "a tree or (tree, size) for which urwid itself emits a WidgetWarning subclass (PileWarning, ColumnsWarning, PaddingWarning, GridFlowWarning, OverlayWarning) is outside the input domain and is counted skipped_invalid, not judged",
     "sizes handed to inner widgets with a component < 1 are outside the statement's 'all sizes >= 1' and are not judged for that inner widget; a failure they cause is attributed to the nearest enclosing widget that was handed a valid size",
@@ -62,6 +66,7 @@ REQUIRE = {
     "clause_row_width": 50000,
     "clause_content_rows": 20000,
     "clause_cursor_inside": 300,
+    "clause_clip_cursor_cell_visible": 300,
     "skipped_invalid": 1,
     "directed_control_text_trees": 50,
     "mode:utf8": 100,
@@ -548,6 +553,111 @@ def handle_finding(env, recipe, f, root_size, root_focus, seen_prekeys, max_per_
 CONTROL_TEXTS = ["a\rb", "a\tb", "ab\x0bcd", "a\x0cb", "x\x1cy", "x\x1dy\x1ez", "a\x85b", "a\u2028b", "a\u2029bc", "\r", "a\r\nb", "\ta", "a\x00b\nc", "ab\x7f"]
 
 
+# ---------------------------------------------------------------- directed phase 4: cursor of a clipped FIXED widget
+
+CLIP_TEXT = "abcdefghijklmnopqrstuvw"  # every character once: the character in the cursor cell identifies the cell
+CLIP_ALIGNS = ["left", "center", "right", ["relative", 30], ["relative", 75]]
+
+
+def clip_cursor_widgets():
+    """FIXED-capable widgets that show a cursor, with texts in which the cursor cell's character is unique"""
+    out = []
+    for pos in (0, 4, 11, 17, 21, 22):
+        out.append({"t": "SelectableIcon", "text": CLIP_TEXT, "cursor_position": pos, "align": "left", "wrap": "clip"})
+    out.append({"t": "Button", "label": "bcdefghijklm", "align": "left", "wrap": "clip"})
+    out.append({"t": "CheckBox", "label": "bcdefghijklm", "state": True, "has_mixed": False})
+    out.append({"t": "RadioButton", "label": "bcdefghijklm", "state": True})
+    return out
+
+
+def clip_cursor_cases():
+    """(recipe, sizes): Padding(width='clip') and Overlay(width='pack') around each widget, sizes narrower than, equal to and
+    wider than the widget"""
+    for leaf in clip_cursor_widgets():
+        for align in CLIP_ALIGNS:
+            for left, right in ((0, 0), (1, 2)):
+                pad = {"t": "Padding", "align": align, "width": "clip", "min_width": None, "left": left, "right": right, "c": [leaf]}
+                yield pad, [(c,) for c in (1, 2, 3, 5, 8, 13, 16, 19, 23, 27, 40)]
+            ov = {
+                "t": "Overlay", "align": align, "valign": "top", "width": "pack", "height": "pack", "min_width": None, "min_height": None,
+                "left": 0, "right": 0, "top": 0, "bottom": 0, "c": [leaf, {"t": "SolidFill", "ch": "."}],
+            }  # fmt: skip
+            yield ov, [(c, r) for c in (1, 3, 8, 16, 23, 40) for r in (1, 3)]
+
+
+def _cells(canv, mode):
+    """{(x, y): character bytes} of a real canvas, one entry per cell a character starts in"""
+    from vmon.models import grid as G
+
+    out = {}
+    for y, row in enumerate(G.flatten_rows([list(r) for r in canv.content()], mode)):
+        x = 0
+        for b, w, _a, _cs in row:
+            if w:
+                out[(x, y)] = b
+            x += w
+    return out
+
+
+def check_clip_cursor(env, recipe, size):
+    """Model-free clause for a clipped FIXED widget rendered with focus: the character under the widget's own cursor (read
+    off its own canvas) is unique, so if that character is visible in the clipping parent's canvas the cell it is in is
+    where the parent's cursor belongs.  -> None | (kind, message).  A cursor cell that was clipped away is not judged here
+    (a cursor left outside in that case is the ordinary cursor-inside clause)."""
+    from urwid.canvas import CanvasCache
+
+    mode = env.mode
+    CanvasCache.clear()
+    leaf = T.build(recipe["c"][0])
+    own = leaf.render((), True)
+    if own.cursor is None:
+        return None
+    glyph = _cells(own, mode).get(tuple(own.cursor))
+    if glyph is None or glyph == b" ":
+        return None
+    CanvasCache.clear()
+    with warnings.catch_warnings(record=True) as ws:
+        warnings.simplefilter("always")
+        try:
+            canv = T.build(recipe).render(size, True)
+        except Exception:  # noqa: BLE001  (reported by the ordinary evaluation of the same case)
+            return None
+    if _widget_warning(ws) or not canv.cols() or not canv.rows():
+        return None
+    try:
+        where = [xy for xy, b in _cells(canv, mode).items() if b == glyph]
+    except ValueError:
+        return None
+    if len(where) != 1:
+        env.ctx.count("clip_cursor_cell_clipped_away" if not where else "clip_cursor_cell_ambiguous")
+        return None
+    env.ctx.count("clause_clip_cursor_cell_visible")
+    cur = canv.cursor
+    if cur is None or tuple(cur) == where[0]:
+        return None
+    inside = 0 <= cur[0] < canv.cols() and 0 <= cur[1] < canv.rows()
+    kind = "cursor-on-wrong-cell" if inside else "cursor-outside-though-its-cell-is-visible"
+    return kind, (
+        f"the widget's cursor cell (character {glyph!r}) is visible at {where[0]} of the {canv.cols()} x {canv.rows()} canvas "
+        f"but the canvas cursor is {tuple(cur)!r}"
+    )
+
+
+def drive_clip_cursor(env, recipe, mode, sizes, seen_prekeys, max_per_prekey):
+    ctx = env.ctx
+    drive_tree(env, recipe, mode, lambda smode: [s for s in sizes if RC.MODE_BY_LEN[len(s)] == smode], seen_prekeys, max_per_prekey)
+    env.set_mode(mode)
+    for size in sizes:
+        got = check_clip_cursor(env, recipe, size)
+        ctx.count("clip_cursor_cases")
+        if got:
+            kind, msg = got
+            sig = f"C01|{recipe['t']}|{kind}"
+            wit = {"mode": mode, "recipe": recipe, "size": list(size), "focus": True, "clause": "clip-cursor"}
+            code = f"import urwid; urwid.util.set_encoding({T.ENCODINGS[mode]!r}); w = {T.to_code(recipe)}; w.render({tuple(size)!r}, True).cursor"
+            ctx.violation(sig, f"{msg}\n  replay: {code}", wit)
+
+
 def drive_tree(env, recipe, mode, sizes_for, seen_prekeys, max_per_prekey):
     """all sizing modes x sizes x focus for one recipe"""
     ctx = env.ctx
@@ -710,6 +820,16 @@ def run(ctx):
                         leaf = {"t": "Text", "text": val, "align": align, "wrap": wrap}
                         drive_tree(env, leaf, mode, sizes_for, seen_prekeys, max_per_prekey)
                         ctx.count("directed_control_text_trees")
+        # 4. directed: a FIXED widget with a cursor, clipped by Padding(width='clip') / Overlay(width='pack'), every
+        #    alignment, sizes narrower / equal / wider than the widget (enumeration, no randomness)
+        j = 0
+        for mode in ctx.pick(("utf8",), tuple(T.ENCODINGS)):  # ASCII texts: the encoding does not matter to the cursor
+            for recipe, sizes in clip_cursor_cases():
+                j += 1
+                if not ctx.mine(j):
+                    continue
+                drive_clip_cursor(env, recipe, mode, sizes, seen_prekeys, max_per_prekey)
+                ctx.count("directed_clip_cursor_trees")
     finally:
         env.m1.uninstall()
         urwid.util.set_encoding(old_enc)
@@ -732,6 +852,15 @@ def replay(ctx, wit):
         env.set_mode(wit["mode"])
         recipe = wit["recipe"]
         size, focus = tuple(wit["size"]), bool(wit["focus"])
+        if wit.get("clause") == "clip-cursor":
+            got = check_clip_cursor(env, recipe, size)
+            if got:
+                sig = f"C01|{recipe['t']}|{got[0]}"
+                ctx.violation(sig, got[1], wit)
+                print("replayed:", sig, "::", got[1])
+            else:
+                print("replay: clip-cursor clause holds")
+            return
         history = [(tuple(s), bool(fo)) for s, fo in wit.get("history", [])]
         st, f = probe(env, recipe, size, focus, history)
         if st == "bad":
